@@ -7,6 +7,9 @@ import os
 import sys
 
 sys.setrecursionlimit(10000)
+# development aid (evaluating a changed copy of the package without touching /repo): the registered commands never set these
+if os.environ.get('VERIF_REPO'):
+    sys.path.insert(0, os.environ['VERIF_REPO'])
 
 
 def main():
